@@ -1,0 +1,16 @@
+//go:build verif
+
+package token
+
+// Contracts for the verification machinery in /verif (comment-only file;
+// excluded from every build without the "verif" tag).
+
+//@ func searchInts
+//@   requires forall p, q int :: 0 <= p && p < q && q < len(a) ==> a[p] <= a[q]
+//@   loop 0 invariant 0 <= i && i <= j && j <= len(a)
+//@   loop 0 invariant forall p int :: 0 <= p && p < i ==> a[p] <= x
+//@   loop 0 invariant forall p int :: j <= p && p < len(a) ==> a[p] > x
+//@   loop 0 decreases j - i
+//@   ensures  -1 <= result && result < len(a)
+//@   ensures  forall p int :: 0 <= p && p <= result ==> a[p] <= x
+//@   ensures  forall p int :: result < p && p < len(a) ==> a[p] > x
